@@ -29,7 +29,7 @@ def machine_known_spin(opts, mt):
 class Case:
     """One program compiled by the real nmfu under one option set, its exported machine, its binary."""
 
-    def __init__(self, prog, args, workdir, sanitize=False, build=True):
+    def __init__(self, prog, args, workdir, sanitize=False, build=True, exclude_known_spin=True):
         self.prog = prog
         self.args = list(args)
         self.ok = False
@@ -46,6 +46,10 @@ class Case:
             self.mt = export_machine(o.dctx)
         except Unsupported as e:
             self.why = "unsupported:" + str(e)
+            return
+        if exclude_known_spin and machine_known_spin(self.opts, self.mt):
+            # feed may not return on this program: the finding recorded under C04, whose check keeps it
+            self.why = "excluded:spin-through-outofspace-redirect (C04 finding)"
             return
         self.dfa = o.dctx.dfa
         self.nstates = len(self.dfa.states)
@@ -147,8 +151,11 @@ def walk_diffs(prog, args, workdir, rng, nwalks=8, long_walks=1):
         biggest = max([o.str_size for o in c.outs if getattr(o, "str_size", None)] or [0])
         ops = []
         seg_ops = []
-        for wi in range(nwalks + long_walks):
-            if wi < nwalks:
+        extra = inputs.extra(prog)
+        for wi in range(nwalks + long_walks + len(extra)):
+            if wi >= nwalks + long_walks:
+                data = extra[wi - nwalks - long_walks]
+            elif wi < nwalks:
                 data = inputs.random_walk(c.dfa, rng, rng.randint(1, 24), p_follow=0.9)
             else:
                 data = inputs.random_walk(c.dfa, rng, min(biggest, 300) + rng.randint(2, 10), p_follow=0.985)
@@ -172,3 +179,27 @@ def walk_diffs(prog, args, workdir, rng, nwalks=8, long_walks=1):
     finally:
         shutil.rmtree(workdir, ignore_errors=True)
     return "ok", diffs
+
+
+def decl_width_problems(outcome):
+    """Static part of 'the emitted C executes the machine': the declared integer types of the state
+    variable and of every buffer counter can hold every value the code stores in them."""
+    import re
+    probs = []
+    h = outcome.header or ""
+    m = re.search(r"\b(u?)int(\d+)_t\s+state;", h)
+    nstates = len(outcome.dctx.dfa.states)
+    if m:
+        bits = int(m.group(2)) - (0 if m.group(1) else 1)
+        if nstates - 1 >= 2 ** bits:
+            probs.append(f"state is {m.group(0).split()[0]} but {nstates} state indices are emitted")
+    T = nmfu.OutputStorageType
+    for o in outcome.cctx.state_object_spec.values() if hasattr(outcome.cctx.state_object_spec, "values") else outcome.cctx.state_object_spec:
+        if o.type == T.STR:
+            cap = o.str_size - 1 if o.str_null else o.str_size
+            m = re.search(r"\b(u?)int(\d+)_t\s+" + re.escape(o.name) + r"_counter;", h)
+            if m:
+                bits = int(m.group(2)) - (0 if m.group(1) else 1)
+                if cap >= 2 ** bits:
+                    probs.append(f"{o.name}_counter is {m.group(0).split()[0]} but must count to {cap}")
+    return probs
